@@ -315,7 +315,21 @@ func (r *Route) copyWithParams(ps Params) *Route {
 	var nr = *r
 	nr.regex = nil
 	nr.matches = nil
-	nr.params = ps
+	// the cached params must not alias the map handed to a request's handlers
+	nr.params = copyParams(ps)
 
 	return &nr
+}
+
+// copyParams returns an independent copy of the params map
+func copyParams(ps Params) Params {
+	if ps == nil {
+		return nil
+	}
+
+	np := make(Params, len(ps))
+	for k, v := range ps {
+		np[k] = v
+	}
+	return np
 }
